@@ -297,3 +297,46 @@ def run_pairs(progs, tag, deadline=None):
                 cur["status"] = line.split()[4]
     shutil.rmtree(d, ignore_errors=True)
     return out
+
+
+def run_agree(progs, tag):
+    """vx agree: {id: dict(n, bad, types{}, violations[(path, app, checker)], status)}"""
+    binary = vx_binary()
+    d = common.tmpdir("vxa-" + tag)
+    n = min(common.NCPU, max(1, len(progs)))
+    jobs = []
+    for i in range(n):
+        part = progs[i::n]
+        if not part:
+            continue
+        pf, of = os.path.join(d, "p%d.txt" % i), os.path.join(d, "o%d.txt" % i)
+        with open(pf, "w") as f:
+            for pid, prog in part:
+                f.write(prog_text(pid, prog))
+        jobs.append(([binary, "agree", pf, of], of))
+    import concurrent.futures as cf
+    with cf.ThreadPoolExecutor(max_workers=len(jobs)) as ex:
+        list(ex.map(lambda j: subprocess.run(j[0], stdout=subprocess.PIPE, stderr=subprocess.PIPE).returncode, jobs))
+    out = {}
+    for j in jobs:
+        cur = None
+        for line in open(j[1], errors="replace"):
+            line = line.rstrip("\n")
+            if line.startswith("P "):
+                cur = dict(id=line[2:].strip(), n=0, bad=0, types={}, violations=[], status="CRASH", errors=[])
+                out[cur["id"]] = cur
+            elif cur is None:
+                continue
+            elif line.startswith("I "):
+                cur["n"], cur["bad"] = map(int, line.split()[1:3])
+            elif line.startswith("V "):
+                cur["violations"].append(tuple(line[2:].split("|")[1:4]))
+            elif line.startswith("L "):
+                t, k = line[2:].rsplit(" ", 1)
+                cur["types"][t] = int(k)
+            elif line.startswith("X "):
+                cur["errors"].append(line)
+            elif line.startswith("R "):
+                cur["status"] = line.split()[4]
+    shutil.rmtree(d, ignore_errors=True)
+    return out
